@@ -64,7 +64,11 @@ FloatAtoms == {"F64", "NaN", "Inf"}
 AbsentAtoms == {"Null", "None"}
 Atoms == TextAtoms \cup BigAtoms \cup FloatAtoms \cup AbsentAtoms
             \cup {"Bool", "I64", "Bytes", "Struct", "EnumNewtype"}
-KeyKinds == {"Bool", "I64", "F64"}
+\* map key kinds: "Bytes" = a byte string, "SeqKey" = a sequence / tuple used as a key
+KeyKinds == {"Bool", "I64", "F64", "Bytes", "SeqKey"}
+\* keys JSON object member names cannot be derived from by sval_json: the default file writer
+\* fails on them and the event is dropped (no line at all; never a mangled one)
+UnencodableKeys == {"Bytes", "SeqKey"}
 
 \* the derived struct of the value pool (harness: `Rec`), field by field
 StructFields == <<
@@ -114,7 +118,8 @@ JsonOf(s) ==
       [] h = "EnumNewtype" -> <<"enum">> \o JsonOf(EnumInner)
       [] h = "Seq" -> <<"array">> \o JsonOf(Rest(s, 2))
       [] h = "MapStr" -> <<"object", "Str">> \o JsonOf(Rest(s, 2))
-      [] h = "MapKey" -> <<"object", s[2]>> \o JsonOf(Rest(s, 3))
+      [] h = "MapKey" -> IF s[2] \in UnencodableKeys THEN <<"unencodable">>
+                         ELSE <<"object", s[2]>> \o JsonOf(Rest(s, 3))
       [] h = "Some" -> JsonOf(Rest(s, 2))
 
 \* Level B: emitter/otlp/src/data/any_value.rs AnyStream.  Only null/bool/text/i64/f64/
@@ -140,6 +145,7 @@ AnyStreamB(s) ==
                          ELSE <<"HOLE">>
       [] h = "Some" -> AnyStreamB(Rest(s, 2))
 
+HasUnencodable(img) == \E i \in 1..Len(img) : img[i] = "unencodable"
 HasHole(img) == \E i \in 1..Len(img) : img[i] = "HOLE"
 
 -----------------------------------------------------------------------------
@@ -167,13 +173,25 @@ SynAttr(k, i, img) == [key |-> k, from |-> i, img |-> img, opt |-> FALSE, syn |-
 FixedOf(e) ==
     CASE e.extent = "none" -> <<"mdl", "msg", "tpl">>
       [] e.extent = "point" -> <<"ts", "mdl", "msg", "tpl">>
-      [] e.extent = "range" -> <<"ts_start", "ts", "mdl", "msg", "tpl">>
+      \* "an empty range is still considered a range" (core/src/extent.rs); a backwards range
+      \* (end < start) is what it was built from: as_range() = the range, as_point() = its end
+      [] e.extent \in {"range", "rangeEmpty", "rangeBack"} -> <<"ts_start", "ts", "mdl", "msg", "tpl">>
 
 MapSeq(s, Op(_)) == [n \in 1..Len(s) |-> Op(s[n])]
 
 FileRecord(e) ==
     [sink |-> "file", fixed |-> FixedOf(e),
+     may_drop |-> \E i \in 1..Len(e.props) : IsFirst(e, i) /\ HasUnencodable(JsonOf(ShapeAt(e, i))),
      attrs |-> MapSeq(DedupIdx(e), LAMBDA i : Attr(e, i, JsonOf(ShapeAt(e, i))))]
+
+\* the terminal line: what emit_term shows of an event (everything else is layout)
+TermRecord(e) ==
+    [sink |-> "term",
+     lvl |-> FirstIdx(e, "lvl"),          \* # 0: the level's text
+     kind |-> FirstIdx(e, "evt_kind"),    \* # 0: the kind's text
+     err |-> FirstIdx(e, "err"),          \* # 0 and an error value: its text, then every cause in chain order
+     hole |-> FirstIdx(e, "a"),           \* the template's hole: the value's rendering inside the message
+     trace |-> FirstIdx(e, "trace_id"), span |-> FirstIdx(e, "span_id")]
 
 \* err -> exception.message (+ exception.stacktrace when the error has a source)
 ExcAttrs(e, i) ==
@@ -378,7 +396,8 @@ TypeOK == pc \in {"dedup", "lift", "attr", "done"}
    records the statement predicts (level A). *)
 EmitReplay ==
     (Emit /\ pc' = "done") =>
-        PrintT(<<"REPLAY", ToJson([ev |-> ev, file |-> FileRecord(ev), otlp |-> OtlpRecord(ev)])>>)
+        PrintT(<<"REPLAY", ToJson([ev |-> ev, file |-> FileRecord(ev), otlp |-> OtlpRecord(ev),
+                                    term |-> TermRecord(ev)])>>)
 
 \* the tables the harness needs to turn an image into a concrete expectation
 Tables ==
